@@ -1392,3 +1392,125 @@ func condTestsError(cond ssa.Value, err ssa.Value) bool {
 	}
 	return false
 }
+
+// E4c — the end-of-stream sentinel travels bare. Callers recognise the end of the stream by comparing with the sentinel
+// itself (NextData does, and so does the documented read loop), so on the paths of the demuxer the sentinel must never be
+// wrapped: every fmt.Errorf that wraps an error which may be the bare sentinel (it comes, through phis, from a call of a
+// function that can return the bare sentinel) is dominated by the edge of a comparison of that error with the sentinel on
+// which they differ. A wrap by an errors.Is-guard counts only if the guard is the != / ! form on that very value.
+func E4c(p *load.Program, r *report.Report, sentinel string) {
+	var sg *ssa.Global
+	if m, ok := p.SSAPkg.Members[sentinel].(*ssa.Global); ok {
+		sg = m
+	}
+	if sg == nil {
+		r.Unknown("E4c", "anchor/"+sentinel, "", "sentinel not found")
+		return
+	}
+	funcs := p.SrcFuncs()
+	may := map[*ssa.Function]bool{}
+	isSentinelLoad := func(v ssa.Value) bool { return ssau.GlobalOf(v) == sg }
+	for changed := true; changed; {
+		changed = false
+		for _, f := range funcs {
+			if may[f] {
+				continue
+			}
+			ei := ssau.ErrorResultIndex(f.Signature)
+			if ei < 0 {
+				continue
+			}
+			for _, ret := range ssau.Returns(f) {
+				if len(ret.Results) <= ei {
+					continue
+				}
+				for _, l := range ssau.Leaves(ret.Results[ei]) {
+					if isSentinelLoad(l) {
+						may[f] = true
+					}
+					if c := callOfValue(l); c != nil {
+						if cal := c.Call.StaticCallee(); cal != nil && may[cal] {
+							may[f] = true
+						}
+					}
+				}
+			}
+			if may[f] {
+				changed = true
+			}
+		}
+	}
+	n := 0
+	for _, f := range funcs {
+		k := 0
+		for _, ci := range ssau.Calls(f) {
+			call, ok := ci.(*ssa.Call)
+			if !ok || ssau.CalleeName(call.Common()) != "fmt.Errorf" {
+				continue
+			}
+			vals, okv := ssau.VarargValues(call.Call.Args[len(call.Call.Args)-1])
+			if !okv {
+				continue
+			}
+			for _, a := range vals {
+				a = ssau.StripIface(a)
+				if !ssau.IsErrorType(a.Type()) {
+					continue
+				}
+				canBe := false
+				for _, l := range ssau.Leaves(a) {
+					if isSentinelLoad(l) {
+						canBe = true
+					}
+					if c := callOfValue(l); c != nil {
+						if cal := c.Call.StaticCallee(); cal != nil && may[cal] {
+							canBe = true
+						}
+					}
+				}
+				if !canBe {
+					continue
+				}
+				n++
+				k++
+				key := fmt.Sprintf("%s/wrap#%d", load.FuncName(f), k)
+				guarded := false
+				for _, e := range ssau.DominatingEdges(call.Block()) {
+					x, g, eq, ok := sentinelCompare(e.If.Cond)
+					if !ok || g != sg || !ssau.SameValue(x, a) {
+						continue
+					}
+					if _, viaIs := e.If.Cond.(*ssa.Call); viaIs {
+						// errors.Is(err, S) false edge: err is neither S nor wraps S
+						if e.Succ == 1 {
+							guarded = true
+						}
+						continue
+					}
+					onTrue := e.Succ == 0
+					if onTrue != eq {
+						guarded = true
+					}
+				}
+				if guarded {
+					r.OK("E4c", key, p.Pos(call.Pos()), "the wrapped error is known to differ from "+sentinel+" here")
+				} else {
+					r.Bad("E4c", key, p.Pos(call.Pos()), "an error that can be the bare "+sentinel+" is wrapped: callers that compare with == (NextData, the documented read loop) no longer see the end of the stream")
+				}
+			}
+		}
+	}
+	r.Floor("E4c", "wraps of errors that may be the end-of-stream sentinel", n, 2)
+}
+
+func callOfValue(v ssa.Value) *ssa.Call {
+	switch x := v.(type) {
+	case *ssa.Call:
+		return x
+	case *ssa.Extract:
+		if c, ok := x.Tuple.(*ssa.Call); ok {
+			return c
+		}
+	}
+	return nil
+}
